@@ -50,6 +50,16 @@ def gen(rng, i, tier):
             bypos[p] = (True, (3 + p % 2, 1), [])
         elif x < 0.35:
             bypos[p] = (rng.random() < 0.7, None, [])
+    if i % 6 == 4 and nm >= 2:
+        # bias: one callback queues events for several models and then removes those models with ONE
+        # remove_model([...]) call while their events are pending
+        c['batch_removals'] = 1
+        ms = list(range(nm))
+        rng.shuffle(ms)
+        gone = ms[:rng.randint(2, nm)] if nm > 2 else ms
+        acts = [(0, k, rng.randrange(ne)) for k in gone for _ in range(rng.randint(1, 2))]
+        rng.shuffle(acts)
+        bypos[rng.randint(0, 3)] = (True, None, acts[:4] + [(1, k) for k in gone])
     c['env']['bypos'] = bypos
     c['cls'] = CLASSES[(i // 3) % len(CLASSES)]
     c['queued'] = (i % 3 != 2)          # every third case: no queue (immediate, re-entrant processing)
@@ -128,6 +138,31 @@ def impl_queue(case):
             if models[a[1]] in machine.models:
                 machine.remove_model(models[a[1]])
     world.perform = perform
+
+    def perform_all(acts, mypos):
+        """like performing the actions one by one, except that a run of consecutive remove_model actions becomes
+        ONE call remove_model([m1, m2, ...]) (same effect by C05_remove_exact: exactly their pending events go)"""
+        i = 0
+        while i < len(acts):
+            a = acts[i]
+            if a[0] == 1 and case.get('batch_removals'):
+                j = i
+                group = []
+                while j < len(acts) and acts[j][0] == 1:
+                    cur = st['payload_id'].get(world.items[-1][4][1], 0)
+                    st['act_k'][cur] = st['act_k'].get(cur, 0) + 1
+                    mod = models[acts[j][1]]
+                    if mod in machine.models and not any(mod is g for g in group):
+                        group.append(mod)
+                    j += 1
+                if group:
+                    machine.remove_model(group if len(group) > 1 else group[0])
+                i = j
+            else:
+                world.cur_pos, world.cur_k = mypos, i
+                perform(a)
+                i += 1
+    world.perform_all = perform_all
     out = []
     for (m, e, a) in case['history']:
         world.items = []
@@ -207,3 +242,57 @@ def shrink_candidates(case):
                 c = copy.deepcopy(case)
                 del c['machine']['events'][ei][1][ti]
                 yield c
+
+
+# ------------------------------------------------------------------ the asyncio classes' queues
+def impl_async_queue(case):
+    """one C05 program on AsyncMachine / HierarchicalAsyncMachine with queued=True or queued='model' (harness of C09)"""
+    import c09
+    flat._import_transitions()
+    import transitions.extensions as ext
+    cls = getattr(ext, case['acls'])
+    flags = (0, 1 if 'Hierarchical' in case['acls'] else 0, 0, 1)
+    try:
+        obs, free = c09.run_queue_on(case, cls, flags, None)
+        return [1, c09.name_exns(obs)]
+    except BaseException as ex:  # noqa
+        return dict(harness_error='%s: %s' % (type(ex).__name__, ex))
+
+
+def extra_checks(tier, seed):
+    """the per-model / shared queues of the asyncio classes: the same programs (callbacks that trigger, remove models,
+    raise) awaited one at a time on AsyncMachine and HierarchicalAsyncMachine with queued=True and - for one-model
+    cases - queued='model', compared with Queue.drain; restricted to cases in which the licensed async difference
+    (all checks of a transition evaluated, gathered stage lists) cannot show (C09's envelope)."""
+    import c09
+    import framework as F
+    n = 500 if tier == 'quick' else 8000
+    cases = []
+    for i in range(n):
+        rng = random.Random('C05a-%d-%d' % (seed, i))
+        c = c09.gen_queue(rng)
+        c['acls'] = ['AsyncMachine', 'HierarchicalAsyncMachine'][i % 2]
+        cases.append(c)
+    mo = F.run_model(1, [c09.enc_queue(c) + [True] for c in cases])
+    io = F.run_impl('c05', 'impl_async_queue', cases)
+    compared = raised = model_mode = 0
+    bad = None
+    for c, m, i in zip(cases, mo, io):
+        if not isinstance(m, list) or m[0] != 1:
+            continue
+        base = c09.name_exns(c09.canon_queue_steps(m[1]))
+        if 'out-of-fuel' in base or not c09.async_envelope(c, c09._base_items(c, base)):
+            continue
+        compared += 1
+        model_mode += 1 if c['queued'] == 2 else 0
+        raised += 1 if any(isinstance(st, list) and st[1][0] == 1 for st in base) else 0
+        if isinstance(i, dict) or i[1] != base:
+            bad = bad or (c, base, i)
+    detail = dict(cases=len(cases), compared_inside_the_async_envelope=compared, with_queued_model=model_mode,
+                  with_a_raising_call=raised, disagreements=0 if bad is None else 1)
+    if bad:
+        c, m, i = bad
+        return [('async_queues', False, detail,
+                 dict(kind='counterexample', stream='asyncio classes, queued=True / queued=\'model\'', case=c, model_obs=m,
+                      impl_obs=i, theorem='corr_C05 (Queue.drain = the asyncio classes\' queued processing)'))]
+    return [('async_queues', True, detail, {})]
